@@ -5,6 +5,7 @@ package main
 import (
 	"encoding/binary"
 	"fmt"
+	"math"
 	"sort"
 
 	"github.com/db47h/decimal"
@@ -18,7 +19,8 @@ type cmpVal struct {
 }
 
 // decorated builds the Decimal for o with an attribute decoration:
-// kind 0: as is; 1: other mode; 2: larger precision; 3: acc Below/Above obtained by a real rounding.
+// kind 0: as is; 1: other mode; 2: larger precision; 3: acc Below/Above obtained by a real rounding;
+// 4: Set from a longer mantissa with trailing zero words; 5: precision attribute near MaxPrec.
 func decorated(o *Opnd, kind int) *Dec {
 	switch kind {
 	case 1:
@@ -45,6 +47,24 @@ func decorated(o *Opnd, kind int) *Dec {
 		z := fresh(mp, ToZero)
 		z.Set(src.Build())
 		return z
+	case 4:
+		// computed at a larger precision (mantissa with trailing zero words), then Set into a receiver whose
+		// precision is just enough: the value is exactly representable, nothing is rounded
+		if o.Form != fFinite {
+			return o.Build()
+		}
+		long := *o
+		long.Words = append([]uint64{0, 0}, o.Words...)
+		long.Prec = uint32(len(long.Words) * DW)
+		mp := uint32(minPrecWords(o.Words))
+		z := fresh(mp, o.Mode)
+		z.Set(long.Build())
+		return z
+	case 5:
+		// precision is an attribute: the largest one
+		a := *o
+		a.Prec = math.MaxUint32 - uint32(len(o.Words)%3)
+		return a.Build()
 	}
 	return o.Build()
 }
@@ -110,7 +130,7 @@ func cmpValues(tier string) []*cmpVal {
 	}
 	vals := make([]*cmpVal, len(os))
 	for i, o := range os {
-		vals[i] = &cmpVal{o: o, d: decorated(o, i%4), desc: o.String()}
+		vals[i] = &cmpVal{o: o, d: decorated(o, i%6), desc: o.String()}
 		if o.Form == fFinite && len(o.Words) > 1 && o.Words[0] == 0 {
 			// a mantissa with a low zero word that did not go through the library's rounding:
 			// as it arrives from a gob stream, or after clearing the word through BitsExp
@@ -171,7 +191,7 @@ func cmpLayers(tier string) []Layer {
 	layers = append(layers, Layer{
 		Name:   "O1-pairs",
 		Units:  n,
-		Bounds: fmt.Sprintf("all ordered pairs over %d values: ±D(2)×10^[-2..2], ±W(3,S7) plain / with an extra low zero word (built through SetBitsExp, through a gob payload, or by clearing the word through BitsExp) / with a differing lowest word, run-length strings, range-end exponents, ±0, ±Inf (also in variables that held 1, 1e-7, a 3-word value, 5e5 before); each value decorated (mode, larger precision, non-Exact accuracy from a real rounding)", n),
+		Bounds: fmt.Sprintf("all ordered pairs over %d values: ±D(2)×10^[-2..2], ±W(3,S7) plain / with an extra low zero word (built through SetBitsExp, through a gob payload, or by clearing the word through BitsExp) / with a differing lowest word, run-length strings, range-end exponents, ±0, ±Inf (also in variables that held 1, 1e-7, a 3-word value, 5e5 before); each value decorated (mode, larger precision, non-Exact accuracy from a real rounding, Set from a longer mantissa with trailing zero words, precision attribute near MaxPrec)", n),
 		Run: func(c *Ctx, u int) {
 			vs := get()
 			x := vs[u]
